@@ -48,6 +48,7 @@ class LogFnHook:
         self.traces = []
         self.meta = []
         self.raised = 0
+        self.alias_checked, self.alias_bad = 0, []
 
     def __call__(self, real, obj, sline, cv):
         inst = real.inst
@@ -72,6 +73,23 @@ class LogFnHook:
             ev = dict(a, t=real.project(o2), it=ret)
             self.traces.append(dict(cv=cv, s0=s, ev=[hvsrobj.ev_of(ev)]))
             self.meta.append((a, cv, s, ret))
+            # the documented alias "log-normal" names the same distribution: same decisions, same iteration count
+            if inst.dist_f == "lognormal" or inst.dist_a == "lognormal":
+                o3 = copy.deepcopy(obj)
+                keep = (inst.dist_f, inst.dist_a)
+                inst.dist_f, inst.dist_a = (d.replace("lognormal", "log-normal") for d in keep)
+                try:
+                    with warnings.catch_warnings():
+                        warnings.simplefilter("ignore")
+                        ret3 = real.apply(o3, a)
+                    got3 = (real.project(o3), ret3)
+                except Exception as e:
+                    got3 = f"{type(e).__name__}: {e}"
+                finally:
+                    inst.dist_f, inst.dist_a = keep
+                self.alias_checked += 1
+                if got3 != (ev["t"], ret):
+                    self.alias_bad.append((a, cv, s, (ev["t"], ret), got3))
 
 
 def main():
@@ -129,7 +147,7 @@ def main():
     constsd = consts.replace(f"NW = {nw}", "NW = 4")
     rpd = hvsrobj.Replayer(run, hvsrpy, gd, ALPHA8D, 1, 4, nf, constsd, focus={"Fdwra", "Init"})
     rpd.fdwra_hook = fdwra_hook
-    for inst in (hvsrobj.Instance(nf, "N", "L", q=2.0), hvsrobj.Instance(nf, "N", "N")):
+    for inst in (hvsrobj.Instance(nf, "N", "L", q=2.0), hvsrobj.Instance(nf, "N", "N"), hvsrobj.Instance(nf, "L", "L", alias=True)):
         rpd.replay(inst)
     rpd.validate_pending()
     run.notes["fdwra_log_iterations_checked"] = logstat["iterations"]
@@ -183,6 +201,10 @@ def main():
             run.violation("fdwra:lognormal-fn", f"lognormal fn: {a} on cv={cv} from {s}: real outcome {tr['ev'][0]['t']} "
                           f"returned {ret} is not an outcome of the published algorithm (property tier, exp-criterion open)",
                           dict(kind="fdwra-logfn", trace=tr))
+    for a, cv, s, want, got3 in lh.alias_bad:
+        run.violation("fdwra:alias-differs", f"{a} on cv={cv} from {s}: with the alias 'log-normal' the outcome is {got3}, with 'lognormal' {want}",
+                      dict(kind="fdwra-alias", a=a, cv=cv, s=s))
+    run.notes["alias_runs_compared"] = lh.alias_checked
     run.notes["lognormal_fn_traces"] = len(traces)
     run.notes["lognormal_fn_undefined"] = lh.raised
     run.notes["replay_traditional"] = rp.stats
